@@ -104,13 +104,18 @@ pub fn check_level(ck: &mut Ck, c: &LevelC) {
         });
         ck.ob(T_FP3, "QUADRATIC_NONRESIDUE_TO_T", order_2s(&x.qnr_to_t), || json!({"p": hexu(&p), "s": s, "got": hexv(&x.qnr_to_t)}));
     }
-    match &c.sqrt {
-        SqrtC::Absent | SqrtC::Other => {},
-        SqrtC::TonelliShanks { two_adicity, qnr_to_t, tm1d2 } => {
+    match (&c.sqrt, &c.fp3) {
+        (SqrtC::Absent | SqrtC::Other, _) => {},
+        // Fp3 forwards its three constants: the payload must be exactly them (their values are judged above)
+        (SqrtC::TonelliShanks { two_adicity, qnr_to_t, tm1d2 }, Some(x)) => {
+            let ok = *two_adicity == x.two_adicity && *qnr_to_t == x.qnr_to_t && *tm1d2 == x.tm1d2;
+            ck.ob(T_SQRT, "SQRT_PRECOMP/TonelliShanks-forwards-the-Fp3Config-constants", ok, || json!({"two_adicity": two_adicity, "tm1d2": hex_limbs(tm1d2), "qnr_to_t": hexv(qnr_to_t)}));
+        },
+        (SqrtC::TonelliShanks { two_adicity, qnr_to_t, tm1d2 }, None) => {
             let ok = *two_adicity as usize == s && from_limbs(tm1d2) == (&t_odd - &one) >> 1usize && order_2s(qnr_to_t);
             ck.ob(T_SQRT, "SQRT_PRECOMP/TonelliShanks", ok, || json!({"s": s, "two_adicity": two_adicity, "tm1d2": hex_limbs(tm1d2), "qnr_to_t": hexv(qnr_to_t)}));
         },
-        SqrtC::Case3Mod4 { mp1d4 } => {
+        (SqrtC::Case3Mod4 { mp1d4 }, _) => {
             let ok = (&ql % u(4)) == u(3) && from_limbs(mp1d4) == (&ql + &one) >> 2usize;
             ck.ob(T_SQRT, "SQRT_PRECOMP/Case3Mod4", ok, || json!({"got": hex_limbs(mp1d4)}));
         },
